@@ -402,6 +402,11 @@ class World:
                     if nonce < nonce0 + 300:
                         continue                 # this nonce samples below the fork point: try another one
                     bh = bytes([bh[0] ^ 1]) + bh[1:]
+            elif not ev_ok and forge == "sample_only":
+                # only the stated chain sample differs from the recomputed one; the evidence hash is the one of the proper evidence
+                sample = bytes([sample[0] ^ 0x10]) + sample[1:]
+            elif not ev_ok and forge == "summary_hash_only":
+                sh = bytes([sh[0] ^ 0x10]) + sh[1:]
             elif not ev_ok and forge == "sample":
                 sample = bytes([sample[0] ^ 0x10]) + sample[1:]
                 bh = indep.blake2(sh + sample + indep.enc_txlist(txs))
@@ -519,7 +524,7 @@ class World:
         if mut == "badtarget":
             v = (int.from_bytes(exp, "big") + 1) % (1 << 256)
             target = v.to_bytes(32, "big")
-        forge, alt_tip = ["", "summary_hash", "sample"][(d["id"] + d["ts"]) % 3], None
+        forge, alt_tip = ["", "summary_hash", "sample", "sample_only", "summary_hash_only"][(d["id"] + d["ts"]) % 5], None
         if mut == "evidence_otherchain" and d.get("alt_tip", -1) in self.by_abs:
             forge, alt_tip = "otherchain", indep.blockid(self.by_abs[d["alt_tip"]])
         blk = self.mine(parent_hash, d["height"], d["ts"], target, txs, pow_ok=d["powok"], ev_ok=d["evok"],
